@@ -25,3 +25,31 @@ Print Assumptions C16_flag_per_frame.
 Print Assumptions C16_read.
 Print Assumptions C16_mouse_masked.
 Print Assumptions C16_rest_untouched.
+
+(* ---- lifted to whole frames (Proofs/FrameLiftP.v): EVERY read of EVERY action evaluation of a frame, in any
+   world; h is what the consuming actions evaluated earlier in the frame have hidden ---- *)
+From BEI Require Import Model.Frame Proofs.ConsumeP Proofs.RegistryP Proofs.FrameLiftP.
+Theorem C16_every_read_of_a_frame : forall w f k e,
+  nth_error (frame_evals w f) k = Some e ->
+  exists h : list (device * input),
+    er_consumed e = consume_list h (update_state (f_raw f)) /\
+    (* with an interacted element every mouse-sourced input reads inactive, for every context and action *)
+    (forall j, ui_any (f_raw f) = true -> is_mouse j = true ->
+       reader_value (f_raw f) (er_consumed e) (er_dev e) j = zero_of j) /\
+    (* everything else reads exactly as without the UI (what earlier actions consumed stays hidden) *)
+    (forall j, is_mouse j = false ->
+       reader_value (f_raw f) (er_consumed e) (er_dev e) j =
+       if hidden h (er_dev e) j then zero_of j else spec_read (f_raw f) false (er_dev e) j) /\
+    (* and without interaction nothing is masked *)
+    (forall j, ui_any (f_raw f) = false ->
+       reader_value (f_raw f) (er_consumed e) (er_dev e) j =
+       if hidden h (er_dev e) j then zero_of j else spec_read (f_raw f) false (er_dev e) j).
+Proof.
+  intros w f k e Hk. destruct (frame_consumed w f) as (hs & _ & N).
+  destruct (N k e Hk) as [Hc Hr]. cbv zeta in Hc, Hr.
+  exists (concat (firstn k hs)). split; [exact Hc|]. split; [|split].
+  - intros j Hui Hm. rewrite Hr, Hui. rewrite ui_masks_mouse by exact Hm. destruct (hidden _ _ _); reflexivity.
+  - intros j Hm. rewrite Hr. rewrite (ui_leaves_rest _ (ui_any (f_raw f))) by exact Hm. reflexivity.
+  - intros j Hui. rewrite Hr, Hui. reflexivity.
+Qed.
+Print Assumptions C16_every_read_of_a_frame.
